@@ -14,8 +14,19 @@ def parse (toks : List String) : Option (Rl4co.Sdvrp.Inst × List Nat × List (L
   let i : Rl4co.Sdvrp.Inst := { n := n, cap := cap, demand := fn1From1 dem, D := fn2 (n + 1) dm }
   pure (i, toNats acts, rest)
 
+/-- collapse runs of consecutive depot visits -/
+def dedupZeros : List Nat → List Nat
+  | [] => []
+  | [a] => [a]
+  | a :: b :: r => if a = 0 ∧ b = 0 then dedupZeros (b :: r) else a :: dedupZeros (b :: r)
+
+/-- `checkz`: verdict with a depot visit appended; `checkd`: verdict with repeated depot visits collapsed
+(used to attribute a rejection to exactly one of the known checker rules) -/
+def extra (i : Rl4co.Sdvrp.Inst) (as : List Nat) : String :=
+  s!"checkz={bit (Rl4co.Sdvrp.check i (as ++ [0]))} checkd={bit (Rl4co.Sdvrp.check i (dedupZeros as))}"
+
 def verdicts (i : Rl4co.Sdvrp.Inst) (as : List Nat) : String :=
-  s!"check={bit (Rl4co.Sdvrp.check i as)} feas={bit (Rl4co.Spec.Sdvrp.greedyFeasible i as)} greedy={bit (Rl4co.Spec.Sdvrp.greedyFeasible i as)} canon={bit (Rl4co.Spec.Sdvrp.canonical i as)}"
+  s!"check={bit (Rl4co.Sdvrp.check i as)} feas={bit (Rl4co.Spec.Sdvrp.greedyFeasible i as)} greedy={bit (Rl4co.Spec.Sdvrp.greedyFeasible i as)} canon={bit (Rl4co.Spec.Sdvrp.canonical i as)} {extra i as}"
 
 def bound (i : Rl4co.Sdvrp.Inst) : Int :=
   if i.cap ≤ 0 then 0 else 2 * ((i.n : Int) + (sumTo i.n i.demand) / i.cap) + 1
@@ -35,7 +46,7 @@ def witness (toks : List String) : Option String := do
   let (i, as, rest) ← parse toks
   let [qs] := rest | none
   let ok := decide (qs.length = as.length) && Rl4co.Spec.Sdvrp.validSplit i (as.zip qs)
-  pure s!"check={bit (Rl4co.Sdvrp.check i as)} feas={bit ok} greedy={bit (Rl4co.Spec.Sdvrp.greedyFeasible i as)}"
+  pure s!"check={bit (Rl4co.Sdvrp.check i as)} feas={bit ok} greedy={bit (Rl4co.Spec.Sdvrp.greedyFeasible i as)} {extra i as}"
 
 def handlers : List (String × (List String → Option String)) :=
   [("sdvrp.episode", episode), ("sdvrp.check", check), ("sdvrp.witness", witness)]
